@@ -39,7 +39,7 @@ m = {
     }],
     "checks": checks,
     "not_applicable": na,
-    "notes": "All checks share ./check; evidence is rewritten by each run; known findings in known_findings.json; fix commits in /repo start with 'fix:'.",
+    "notes": "All checks share ./check; evidence is rewritten by each run; known findings in known_findings.json; fix commits in /repo start with 'fix:'. Hook commits only add code, with one exception stated here: ee229a3 splits the statement `return ms.txnMappedFile.Flush()` of readWriteSegment.Flush into `err := ...Flush(); <observation>; return err` (same behaviour; the later fix 58de83b rewrites that function body anyway); lines removed by other hook commits are lines of the verif-tagged hook files themselves.",
 }
 json.dump(m, open(os.path.join(ROOT, "MANIFEST.json"), "w"), indent=1)
 print("MANIFEST.json: %d checks, %d not claimed" % (len(checks), len(na)))
